@@ -32,7 +32,7 @@ def one(args):
     wt = "/tmp/bintake_%s_%d" % (name, k)
     subprocess.run(["git", "-C", "/repo", "worktree", "remove", "--force", wt], capture_output=True)
     shutil.rmtree(wt, ignore_errors=True)
-    subprocess.check_call(["git", "-C", "/repo", "worktree", "add", "-q", wt, "HEAD"])
+    subprocess.check_call(["git", "-C", "/repo", "worktree", "add", "-q", "--detach", wt, os.environ.get("BENIGN_BASE", "HEAD")])
     try:
         rca, outa = sh(["git", "apply", diff], cwd=wt)
         rct, outt = sh(TEST, cwd=wt)
